@@ -11,7 +11,7 @@ from ..catalogue import Catalogue, Registration
 from ..cfg import CFG
 from ..model import AnalysisError, Func, Program, norm
 from ..report import Collector
-from .common import Refs, func_label, is_super_call, require_func, walk_no_nested
+from .common import Refs, func_label, is_super_call, regions_where, require_func, walk_no_nested
 
 EXPLANATION = (
     "Determinism clauses of pattern dispatch decided on the source. R16.1: in PartialDispatcher.partial_call the type tuple is computed "
@@ -164,6 +164,10 @@ def run(prog: Program, col: Collector, tier: str, refs: Optional[Refs] = None, c
     # ---------------------------------------------------------------- R16.8 covariant structural recursion
     col.rule("R16.8", "component types of the two sides meet only through the covariant recursive call (or a nominal check of origins)", floor=12)
     _covariant_recursion(prog, col, refs, cat)
+
+    # ---------------------------------------------------------------- R16.11 a bare container is the container of Any
+    col.rule("R16.11", "a candidate without parameters is compared as the container of Any (accepted only by patterns whose parameter is Any)", floor=2)
+    _bare_candidate(prog, col, refs, cat)
 
     # ---------------------------------------------------------------- R16.9 canonical parameters
     col.rule("R16.9", "type parameters are canonicalised (object -> Any) before they are stored or compared", floor=2)
@@ -846,3 +850,79 @@ def _whole_pattern(prog: Program, col: Collector, refs: Refs):
     sub = [n for n in ast.walk(kr.node) if isinstance(n, ast.Subscript) and isinstance(n.value, ast.Name) and n.value.id == va]
     col.check(bool(fwd) and not sub and va is not None, f"{kr.fq}::*{va}", "all pattern types are forwarded to the per-class dispatcher",
               "KeyedRegistry.register does not forward all pattern types", kr.loc())
+
+
+# ---------------------------------------------------------------------- R16.11
+def _bare_candidate(prog: Program, col: Collector, refs: Refs, cat: Catalogue):
+    """`Tuple` / `FrozenSet` without parameters stands for the container of anything.  In a per-origin handler the branch taken
+    when the CANDIDATE has no parameters (and the pattern has some) may therefore only accept when the pattern's parameters are
+    `typing.Any`: a constant True, or an extra disjunct (`... or cls_args[-1] is Ellipsis`), makes the bare container a subtype of
+    `FrozenSet[str]` / `Tuple[int, ...]` and dispatch then prefers the narrower rule for arguments it does not fit."""
+    funcs = _oracle_functions(prog, refs, cat)
+    n = 0
+    for f, sides in funcs:
+        sub_p = [k for k, v in sides.items() if v == SUB]
+        cls_p = [k for k, v in sides.items() if v == CLS]
+        if not sub_p or not cls_p:
+            continue
+        # names holding get_args(<side>)
+        args_of = {}
+        for st in walk_no_nested(f.node):
+            if isinstance(st, ast.Assign):
+                pairs = []
+                for tg in st.targets:
+                    if isinstance(tg, (ast.Tuple, ast.List)) and isinstance(st.value, (ast.Tuple, ast.List)) and len(tg.elts) == len(st.value.elts):
+                        pairs += list(zip(tg.elts, st.value.elts))
+                    else:
+                        pairs.append((tg, st.value))
+                for tg, v in pairs:
+                    if isinstance(tg, ast.Name) and isinstance(v, ast.Call) and refs.resolve(v.func) == "funsor.typing.get_args" and len(v.args) == 1 and isinstance(v.args[0], ast.Name):
+                        if v.args[0].id in sub_p:
+                            args_of[tg.id] = SUB
+                        elif v.args[0].id in cls_p:
+                            args_of[tg.id] = CLS
+        sub_args = {k for k, v in args_of.items() if v == SUB}
+        cls_args = {k for k, v in args_of.items() if v == CLS}
+        if not sub_args:
+            continue
+
+        def is_any_test(e) -> bool:
+            if isinstance(e, ast.Compare) and len(e.ops) == 1 and isinstance(e.ops[0], ast.Is) and refs.resolve(e.comparators[0]) == "typing.Any":
+                return any(isinstance(x, ast.Name) and x.id in cls_args for x in ast.walk(e.left))
+            if isinstance(e, ast.BoolOp) and isinstance(e.op, ast.And):
+                return all(is_any_test(v) for v in e.values)
+            if isinstance(e, ast.Call) and isinstance(e.func, ast.Name) and e.func.id == "all" and len(e.args) == 1 and isinstance(e.args[0], (ast.GeneratorExp, ast.ListComp)):
+                g = e.args[0]
+                return isinstance(g.elt, ast.Compare) and len(g.elt.ops) == 1 and isinstance(g.elt.ops[0], ast.Is) and refs.resolve(g.elt.comparators[0]) == "typing.Any" \
+                    and isinstance(g.generators[0].iter, ast.Name) and g.generators[0].iter.id in cls_args
+            if isinstance(e, ast.Constant) and e.value is False:
+                return True
+            return False
+
+        for node in walk_no_nested(f.node):
+            if not isinstance(node, ast.If):
+                continue
+            test, negated = node.test, False
+            while isinstance(test, ast.UnaryOp) and isinstance(test.op, ast.Not):
+                test, negated = test.operand, not negated
+            if not (isinstance(test, ast.Name) and test.id in sub_args):
+                continue
+            # the region in which the candidate has NO parameters
+            region = node.body if negated else node.orelse
+            if not region and not negated and node.body and isinstance(node.body[-1], (ast.Return, ast.Raise)):
+                par = f.module.parent.get(node)
+                for fld in ("body", "orelse"):
+                    b = getattr(par, fld, None)
+                    if isinstance(b, list) and any(x is node for x in b):
+                        k = [i_ for i_, x in enumerate(b) if x is node][0]
+                        region = b[k + 1:]
+            for st in region:
+                if isinstance(st, ast.Return) and st.value is not None:
+                    n += 1
+                    col.check(is_any_test(st.value), f"{f.fq}::bare candidate",
+                              "a candidate without parameters is accepted only when the pattern's parameter is typing.Any",
+                              f"when the candidate has no parameters the handler returns `{norm(st.value)}`: the bare container (= container of anything) is accepted by a "
+                              "parametrised pattern other than <Any>", f.loc(st))
+                    break
+    if n < 2:
+        raise AnalysisError(f"only {n} bare-candidate branch(es) found in the per-origin handlers (anchors: _subclasscheck_tuple, _subclasscheck_frozenset)")
